@@ -41,6 +41,7 @@ typedef struct hx_harness {
     int nopnames;
     uint64_t est_steps;     /* rough run length in scheduling points (PCT / stall placement) */
     uint64_t max_steps;     /* step budget per run */
+    double gap_lo, gap_hi;  /* range of the mean preemption gap in weight units (0: derived from est_steps) */
     int fork_per_run;       /* 1: each run in a forked child (runtime-level harnesses) */
     void (*gen)(hx_plan_t *p, hx_rng_t *r);
     /* run one plan under simulation; sim_begin has been called, the harness calls nothing of
@@ -53,9 +54,17 @@ typedef struct hx_harness {
     void (*init)(void);
     /* optional: extra sim parameter tuning from plan (e.g. quantum) */
     void (*tune)(const hx_plan_t *p, sim_params_t *sp);
+    /* optional: called with the world stopped at an abnormal end (deadlock / no-progress) to
+     * characterise the hang from the harness's own bookkeeping; writes into buf */
+    void (*describe_abort)(char *buf, size_t n);
+    /* optional: plan-derived annotation appended to the detail of every violation of a run
+     * (lets known-findings be keyed by an input shape); computed in the parent process */
+    void (*annotate)(const hx_plan_t *p, char *buf, size_t n);
 } hx_harness_t;
 
 int hx_main(int argc, char **argv, const hx_harness_t *h);
+uint64_t hx_current_seed(void);   /* seed of the run being executed */
+int hx_in_replay(void);           /* 1 when running an explicit plan (replay / minimisation) */
 
 /* plan helpers */
 long hx_knob(const hx_plan_t *p, const char *name, long dflt);
